@@ -291,6 +291,21 @@ V("C06", "C06.R12", "c06-result-object-idtor-unset", "shroud/wrapp.py",
 V("C06", "C06.R12", "c06-owner-caller-result-not-registered", "shroud/wrapp.py",
   """        if (sgroup == "shadow" and not is_ctor
                 and ast.attrs["owner"] == "caller"):""", """        if (sgroup == "shadow" and not is_ctor):""", "fire", "owner-caller")
+V("C06", "C06.R13", "c06-helper-releases-its-parameter", "shroud/whelpers.py",
+  """if (i == 0) {{+
+return -1;
+-}}""", """if (i == 0) {{+
+Py_DECREF(obj);
+return -1;
+-}}""", "fire", "fill_from_PyObject_char")
+V("C03", "C03.R16", "c03-charptr-list-size-unset", "shroud/wrapp.py",
+  """            "{cxx_var} = {cast_static}char **{cast1}{value_var}.data{cast2};",
+            "{size_var} = {value_var}.size;",
+""", """            "{cxx_var} = {cast_static}char **{cast1}{value_var}.data{cast2};",
+""", "fire", "py_char_**_in")
+V("C04", "C04.R12", "c04-struct-members-rendered-as-dummies", "shroud/wrapf.py",
+  """                output.append(ast.gen_arg_as_fortran(bindc=True, local=True))""",
+  """                output.append(ast.gen_arg_as_fortran())""", "fire", "member-kinds")
 V("C05", "C05.R16", "c05-ctor-default-returns-nullptr", "shroud/wrapp.py",
   '                "return {PY_error_return};\\n"\n#                "goto fail;\\n"',
   '                "return {nullptr};\\n"\n#                "goto fail;\\n"', "fire", "wrap_function:return {nullptr}")
